@@ -170,13 +170,29 @@ func c13Read(route int, root *yaml.Node, q string) (string, bool) {
 		text = ".H.QKEY"
 	case 1:
 		text = "explode(.) | .H.QKEY"
-	default:
+	case 2:
 		// what the printer does for encoders that cannot represent aliases: explode every result, then read
 		exp := ExpressionNode{Operation: &Operation{OperationType: explodeOpType}}
 		if _, err := vEval(&exp, doc); err != nil {
 			return "", false
 		}
 		text = ".H.QKEY"
+	case 3:
+		// only the map itself is exploded (the maps it merges still carry their own anchors, aliases and merge keys)
+		text = ".H | explode(.) | .QKEY"
+	default:
+		// `yq -o=json .H`: the printer explodes the result node .H alone, then the value is read from it
+		hres, err := vEval(vParse(".H"), doc)
+		if err != nil || hres.Len() != 1 {
+			return "", false
+		}
+		exp := ExpressionNode{Operation: &Operation{OperationType: explodeOpType}}
+		ctx, err := NewDataTreeNavigator().GetMatchingNodes(Context{MatchingNodes: hres}, &exp)
+		if err != nil || ctx.MatchingNodes.Len() != 1 {
+			return "", false
+		}
+		doc = ctx.MatchingNodes.Front().Value.(*CandidateNode)
+		text = ".QKEY"
 	}
 	e := vParse(text)
 	vSubst(e, "QKEY", "", q)
@@ -205,7 +221,7 @@ func c13Read(route int, root *yaml.Node, q string) (string, bool) {
 	return r.Value, true
 }
 
-var c13RouteNames = []string{"traverse", "explode-then-traverse", "printer-explode"}
+var c13RouteNames = []string{"traverse", "explode-then-traverse", "printer-explode", "explode-the-map-alone", "printer-explode-of-the-map-alone"}
 
 // VerifC13Resolve: every read route gives the value the merge-key rules define.
 func VerifC13Resolve() {
@@ -214,7 +230,10 @@ func VerifC13Resolve() {
 	pos := verifChoice("pos", 3)
 	q := verifStrN("q", 1, "ad")
 	want, src := c13Ref(q, ka1, ka2, kb1, kb2, e1, e2, mergeKind)
-	route := verifChoice("route", 3)
+	route := verifChoice("route", 5)
+	if route >= 3 && mergeKind != 4 && verifParam("allroutes", 0) == 0 {
+		return // the map-alone routes differ from the whole-document ones only when a merged map has structure of its own
+	}
 	label := c13RouteNames[route] + " " + c13MergeNames[mergeKind] + " " + c13PosNames[pos] + " key=" + src
 	c13ExplicitAlias = verifChoice("explicitValueIsAlias", 2) == 1
 	if c13ExplicitAlias {
